@@ -61,9 +61,8 @@ class BaseGopherProtocol:
         """Normalize slashes in the selector.  Make sure it starts
         with a slash and does not end with one.  If it is a root directory
         request, make sure it is exactly '/'.  Returns result."""
-        # All of them: "/dir//" would come out as "/dir/", which lists the
-        # directory with every child refused ("/dir//x") and caches that.
-        selector = selector.rstrip("/")
+        if len(selector) and selector[-1] == "/":
+            selector = selector[0:-1]
         if len(selector) == 0 or selector[0] != "/":
             selector = "/" + selector
         return selector
